@@ -44,7 +44,26 @@ def plan(tier):
 
 
 def oracle(ex):
-    return wrgraph.check_bytes(ex)
+    v = wrgraph.check_bytes(ex)
+    if not v and ex.werr is None and len(ex.data) < 200000 and \
+            len(set(repr(c[1]) for c in ex.calls if c[0] == 'meta')) >= 2:
+        # the caller re-uses its argument objects between calls
+        from mc.observe import run_writer_reusing, site_of
+        try:
+            again = run_writer_reusing(ex.calls, ex.root)
+        except Exception as e:
+            return [('argument-reuse-raised:%s:%s' % (type(e).__name__,
+                                                      site_of(e)), repr(e))]
+        if again != ex.data:
+            i = next((k for k, (a, b) in enumerate(zip(again, ex.data))
+                      if a != b), min(len(again), len(ex.data)))
+            v.append(('argument-object-reuse-changes-output',
+                      'same calls with re-used argument objects (one dict '
+                      'refilled per write_meta, equal strings identical): '
+                      'first difference at byte %d: %r vs %r'
+                      % (i, again[max(0, i - 40):i + 40],
+                         ex.data[max(0, i - 40):i + 40])))
+    return v
 
 
 def run_unit(unit, tier):
